@@ -75,6 +75,28 @@ Theorem C03_cross_symmetric_partial_Z :
     forall k l, k < dim -> l < dim -> T k l = T l k.
 Proof. intros dim Rs T. exact (cross_symmetric_of_group_tf Zring dim Rs T Z_torsion_free). Qed.
 
+(* the invariance premise is itself decided on the implementation's chain: operations (R, p, q) whose block form
+   R (+) R with the state permutation p maps the two-species network onto itself leave the cross tensor invariant ... *)
+Theorem C03_cross_invariant :
+  forall (K : ordring) n dim (N : net K) ops (g : nat -> nat -> K),
+    ops_okb dim n N ops = true ->
+    (forall l, l < dim + dim -> weakKCL N (comp l) (g l)) ->
+    invariant dim (map (fun o => fst (fst o)) ops)
+              (fun a b => Bform N (comp a) (comp (dim + b)) (g a) (g (dim + b))).
+Proof. exact cross_invariant. Qed.
+
+(* ... so the two executable checks together (every operation maps the chain onto itself; no antisymmetric tensor is
+   invariant) make the cross tensor symmetric, for ANY correctors *)
+Theorem C03_cross_symmetric_checker_sound :
+  forall (K : ordring) n dim (N : net K) ops (g : nat -> nat -> K),
+    ops_okb dim n N ops = true ->
+    no_axialb dim (map (fun o => fst (fst o)) ops) = true ->
+    (forall l, l < dim + dim -> weakKCL N (comp l) (g l)) ->
+    forall k l, k < dim -> l < dim ->
+      let T := fun a b => Bform N (comp a) (comp (dim + b)) (g a) (g (dim + b)) in
+      kmul (length ops) (radd K (asym T k l) (asym T k l)) = r0 K.
+Proof. exact cross_symmetric_checker_sound. Qed.
+
 (* the exact evaluator of the cross tensor used by the correspondence is sound *)
 Theorem C03_cross_report_sound :
   forall (K : ordring) n dim (N : net K) gam X,
@@ -103,3 +125,7 @@ Goal True. idtac "ASSUMPTIONS-OF C03_cross_symmetric_partial_Z". Abort.
 Print Assumptions C03_cross_symmetric_partial_Z.
 Goal True. idtac "ASSUMPTIONS-OF C03_cross_report_sound". Abort.
 Print Assumptions C03_cross_report_sound.
+Goal True. idtac "ASSUMPTIONS-OF C03_cross_invariant". Abort.
+Print Assumptions C03_cross_invariant.
+Goal True. idtac "ASSUMPTIONS-OF C03_cross_symmetric_checker_sound". Abort.
+Print Assumptions C03_cross_symmetric_checker_sound.
